@@ -445,7 +445,7 @@ struct MEDDLY::policies {
     }
 
     inline bool isLevelSwap() const {
-        return variable_swap_type::VAR == swap;
+        return variable_swap_type::LEVEL == swap;
     }
 
 };
